@@ -46,6 +46,29 @@ def dump(dt, names, kind, prefer_order=True):
                 label.append(-99)
         arr = np.asarray(sub["pixel"].values, dtype=float).reshape(-1)
         sig = np.asarray(sub["signal"].values, dtype=float).reshape(-1) if "signal" in sub else np.zeros(1)
+        # the other buckets written by the probe must tell the same story (else the entry is reported as undecodable)
+        aux_bad = False
+        if kind in ("enc", "encs"):
+            pho = np.asarray(sub["photon"].values, dtype=float).reshape(-1) if "photon" in sub else None
+            if pho is None or pho.shape != arr.shape or not np.array_equal(pho, arr):
+                aux_bad = True
+        # sequential / custom mode: the run index is the 'id' coordinate
+        if "id" in pdims and "id" in sub.coords and int(np.asarray(sub.coords["id"].values)) != pos[pdims.index("id")]:
+            label = [-97] + label[1:]
+        if kind == "encs":
+            # one column per parameter: column k = code of the value parameter k's model instance received
+            if arr.size != len(names) or np.isnan(arr).any() or np.isnan(sig).any():
+                data, mem = None, -1
+            else:
+                data = []
+                for x in arr:
+                    dec = vp.decode(int(x))
+                    data.append(dec[0] if dec is not None and len(dec) == 1 else -88)
+                mem = int(sig.sum())
+                if aux_bad:
+                    data, mem = None, -2
+            cells.append(dict(label=label, data=data, mem=mem))
+            continue
         if arr.size == 0 or np.isnan(arr).any() or not np.all(arr == arr[0]):
             data, mem = None, -1
         elif kind == "draw":
@@ -53,8 +76,32 @@ def dump(dt, names, kind, prefer_order=True):
             data, mem = [c % 2 ** 20, c // 2 ** 20], int(sig[0])
         else:
             data, mem = vp.decode(int(arr[0])), int(sig[0]) if not np.isnan(sig).any() else -1
+            if data is not None and aux_bad:
+                data, mem = None, -2
         cells.append(dict(label=label, data=data, mem=mem))
     return shape, cells
+
+
+def keys_of(case):
+    """the parameter keys of a case, in the order the parameters are listed"""
+    if case["kind"] == "encs":
+        return [("detector.environment.temperature" if arg == "T" else f"pipeline.charge_collection.m{j}.arguments.{arg}")
+                for j, arg in case["layout"]]
+    return [K + f"p{k}" for k in range(len(case["params"]))]
+
+
+def names_of(case):
+    """the dimension / coordinate name of every parameter: what the implementation's own naming function answers
+    for the key (looked up BY KEY), else the documented rule (last component; '<model>.<argument>' when shared)"""
+    keys = keys_of(case)
+    try:
+        from pyxel.observation.observation import _get_short_dimension_names_new as f
+
+        m = f({k: None for k in keys})
+        return [str(m[k]) for k in keys]
+    except Exception:  # noqa: BLE001
+        short = [k.split(".")[-1] for k in keys]
+        return [s if short.count(s) == 1 else ".".join([k.split(".")[2], s]) for k, s in zip(keys, short)]
 
 
 def build(case, with_dask, out_dir=None):
@@ -67,20 +114,40 @@ def build(case, with_dask, out_dir=None):
         args = dict(p0=0.0, n=case.get("ndraw", 1), sync=bool(case.get("sync")), first=float(case.get("first", 0)),
                     pause=case.get("pause", 0.0))
         func = "verif_probes_c07.draw"
+    elif case["kind"] == "encs":
+        func = None
     else:
         args = dict(nslots=n, sleep_scale=case.get("sleep_scale", 0.0), sleep_mult=case.get("sleep_mult", 1),
                     slow_sum=case.get("slow_sum"))
         for k, d in enumerate(case.get("defaults") or []):
             args[f"p{k}"] = [float(x) for x in d] if isinstance(d, list) else float(d)
         func = "verif_probes_c07.enc"
-    pipe = pyx.make_pipeline({"charge_collection": [dict(func=func, name="m", arguments=args)]})
+    if case["kind"] == "encs":
+        det = pyx.make_detector(rows=1, cols=n)
+        models = []
+        for j in sorted({j for j, _ in case["layout"]}):
+            margs = dict(ident=j, slots=",".join(f"{arg}:{k}" for k, (jj, arg) in enumerate(case["layout"]) if jj == j),
+                         sleep_scale=case.get("sleep_scale", 0.0), sleep_mult=case.get("sleep_mult", 1),
+                         slow_sum=case.get("slow_sum"))
+            for k, (jj, arg) in enumerate(case["layout"]):
+                if jj == j:
+                    d = (case.get("defaults") or [0] * n)[k]
+                    if arg == "T":
+                        det.environment.temperature = float(d)
+                    else:
+                        margs[arg] = [float(x) for x in d] if isinstance(d, list) else float(d)
+            models.append(dict(func="verif_probes_c07.encs", name=f"m{j}", arguments=margs))
+        pipe = pyx.make_pipeline({"charge_collection": models})
+    else:
+        pipe = pyx.make_pipeline({"charge_collection": [dict(func=func, name="m", arguments=args)]})
+    keys = keys_of(case)
     params = []
     for k, p in enumerate(case["params"]):
         if case["mode"] == "custom":
             values = "_" if p["w"] is None else ["_"] * p["w"]
         else:
             values = [([float(x) for x in v] if isinstance(v, list) else float(v)) for v in p["values"]]
-        params.append(ParameterValues(key=K + f"p{k}", values=values))
+        params.append(ParameterValues(key=keys[k], values=values))
     kw = {}
     if case["mode"] == "custom":
         fname = os.path.abspath("c07_table.txt")
@@ -97,6 +164,17 @@ def build(case, with_dask, out_dir=None):
     return det, pipe, obs
 
 
+def snapshot(det, pipe):
+    """the settings of the caller's objects that the swept keys address"""
+    out = [repr(float(det.environment.temperature))]
+    try:
+        for m in pipe.charge_collection.models:
+            out.append(repr(sorted((k, repr(v)) for k, v in dict(m.arguments).items())))
+    except Exception as ex:  # noqa: BLE001
+        out.append("?" + type(ex).__name__)
+    return out
+
+
 def state_hash():
     import verif_probes as vp0
     return vp0.rng_state_hash()
@@ -108,7 +186,7 @@ def run_one(case, with_dask, sched=None, out_dir=None):
     import verif_probes_c07 as vp
 
     vp.reset()
-    names = [f"p{k}" for k in range(len(case["params"]))]
+    names = names_of(case)
     res = {}
     try:
         det, pipe, obs = build(case, with_dask, out_dir)
@@ -118,19 +196,41 @@ def run_one(case, with_dask, sched=None, out_dir=None):
             if sched.get("workers"):
                 cfg["num_workers"] = sched["workers"]
         before = state_hash()
+        snap0 = snapshot(det, pipe)
         with dask.config.set(**cfg):
             dt = pyxel.run_mode(mode=obs, detector=det, pipeline=pipe, with_inherited_coords=True)
             shape, cells = dump(dt, names, case["kind"])
+        if case["kind"] in ("enc", "encs") and cells and snapshot(det, pipe) != snap0:
+            # the runs must work on copies: the caller's detector / pipeline keep the settings they had
+            cells[0]["mem"] += 1000
         res = dict(shape=shape, cells=cells, leak=int(state_hash() != before))
+        if case["kind"] in ("enc", "encs") and with_dask and cells and (sched or {}).get("scheduler") != "processes":
+            # every cell is computed exactly once (+ the one metadata run): surplus executions are added to the trace
+            # counter of the first cell (the model expects 0)
+            nmod = len({j for j, _ in case["layout"]}) if case["kind"] == "encs" else 1
+            ntask = 1
+            for n_ in shape:
+                ntask *= n_
+            res["executions"] = vp.EXEC["n"]
+            cells[0]["mem"] += abs(vp.EXEC["n"] - nmod * (ntask + 1))
         if out_dir is not None:
-            res["files"] = read_files(out_dir)
+            res["files"] = read_files(out_dir, case["kind"])
     except Exception as ex:  # noqa: BLE001
         res = dict(raised=type(ex).__name__, msg=str(ex)[:200])
     return res
 
 
-def read_files(out_dir):
+def read_files(out_dir, kind="enc"):
     import verif_probes_c07 as vp
+
+    def dec(a):
+        if kind == "encs":
+            out = []
+            for x in a:
+                d = vp.decode(int(x)) if not np.isnan(x) else None
+                out.append(d[0] if d is not None and len(d) == 1 else -88)
+            return out
+        return vp.decode(int(a[0])) if a.size and np.all(a == a[0]) else None
 
     files = []
     for root, _, fs in os.walk(out_dir):
@@ -140,7 +240,7 @@ def read_files(out_dir):
                 a = np.load(os.path.join(root, f))
                 a = np.asarray(a, dtype=float).reshape(-1)
                 files.append(dict(index=int(m.group(1)) if m else -1, name=f,
-                                  data=vp.decode(int(a[0])) if a.size and np.all(a == a[0]) else None))
+                                  data=dec(a)))
     files.sort(key=lambda d: (d["index"], d["name"]))
     return files
 
@@ -160,27 +260,62 @@ def handle_obs(case):
 
 
 def handle_islands(case):
-    """ArchipelagoDataTree._build with parallel=False / True: the seed of the population of island k."""
+    """ArchipelagoDataTree._build with parallel=False / True (optionally with the dask batch fitness evaluator, under a
+    dask scheduler, followed by one evolution): per island the seed of its population, the first fitness and -- after
+    the evolution -- the champion.  The global pygmo seed is set before each construction, like run_calibration does."""
+    import dask
     import pygmo as pg
     import verif_probes_c07 as vp
     from pyxel.calibration import Algorithm
     from pyxel.calibration.archipelago_datatree import ArchipelagoDataTree
-    from pyxel.calibration.user_defined import DaskIsland
+    from pyxel.calibration.user_defined import DaskBFE, DaskIsland
 
-    out = {}
-    for par in (False, True):
+    def q(x):
+        return int(round(float(x) * 2 ** 20))
+
+    def one(par, sched):
+        cfg = {}
+        if sched:
+            cfg["scheduler"] = sched["scheduler"]
+            if sched.get("workers"):
+                cfg["num_workers"] = sched["workers"]
         try:
-            algo = Algorithm(type="sade", generations=1, population_size=case["pop"])
-            arch = ArchipelagoDataTree(num_islands=case["n"], udi=DaskIsland(), algorithm=algo,
-                                       problem=vp.SlowProblem(case.get("scale", 0.0) if par else 0.0), topology=pg.unconnected(),
-                                       pop_size=case["pop"], pygmo_seed=case["seed"], parallel=par)
-            isl = []
-            for island in arch._pygmo_archi:
-                pop = island.get_population()
-                isl.append(dict(seed=int(pop.get_seed()) % (2 ** 31), f0=int(pop.get_f()[0][0])))
-            out["par" if par else "seq"] = isl
+            with dask.config.set(**cfg):
+                pg.set_global_rng_seed(seed=case["seed"] % 100000)
+                algo = Algorithm(type="sade", generations=case.get("generations", 1), population_size=case["pop"])
+                arch = ArchipelagoDataTree(num_islands=case["n"], udi=DaskIsland(), algorithm=algo,
+                                           problem=vp.SlowProblem(case.get("scale", 0.0) if par else 0.0),
+                                           topology=pg.unconnected(), pop_size=case["pop"], pygmo_seed=case["seed"],
+                                           bfe=(DaskBFE(chunk_size=case.get("chunk")) if case.get("bfe") else None),
+                                           parallel=par)
+                isl = []
+                for island in arch._pygmo_archi:
+                    pop = island.get_population()
+                    isl.append(dict(seed=int(pop.get_seed()) % (2 ** 31), f0=int(pop.get_f()[0][0])))
+                if case.get("evolve") and not par:
+                    # the reference: every island's algorithm evolves its population here, one after the other, in
+                    # this thread -- no island threads, no dask
+                    for k, island in enumerate(arch._pygmo_archi):
+                        pop = island.get_algorithm().evolve(island.get_population())
+                        isl[k]["champ_f"] = int(pop.champion_f[0])
+                        isl[k]["champ_x"] = [q(x) for x in pop.champion_x]
+                elif case.get("evolve"):
+                    arch._pygmo_archi.evolve()          # every island in its own thread, DaskIsland.run_evolve
+                    arch._pygmo_archi.wait_check()
+                    for k, island in enumerate(arch._pygmo_archi):
+                        pop = island.get_population()
+                        isl[k]["champ_f"] = int(pop.champion_f[0])
+                        isl[k]["champ_x"] = [q(x) for x in pop.champion_x]
+            return isl
         except Exception as ex:  # noqa: BLE001
-            out["par" if par else "seq"] = dict(raised=type(ex).__name__, msg=str(ex)[:200])
+            return dict(raised=type(ex).__name__, msg=str(ex)[:200])
+
+    out = dict(seq=one(False, dict(scheduler="synchronous")))
+    pars = []
+    for sched in case.get("scheds") or [None]:
+        pars.append(one(True, sched))
+    out["par"] = pars[0]
+    out["pars"] = pars
     return out
 
 
